@@ -52,6 +52,38 @@ fn main() {
     for line in stdin.lock().lines() {
         let line = line.unwrap();
         let toks: Vec<&str> = line.split_whitespace().collect();
+        if toks.first() == Some(&"raw") {
+            // raw roots=a,b  name=<hex source> ...   : hand-written module texts (top-level await scenarios)
+            let ans = std::panic::catch_unwind(|| {
+                let loader = Rc::new(Loader::default());
+                let mut roots: Vec<String> = Vec::new();
+                for t in &toks[1..] {
+                    if let Some((k, v)) = t.split_once('=') {
+                        if k == "roots" { roots = v.split(',').map(str::to_string).collect(); }
+                        else {
+                            let bytes: Vec<u8> = (0..v.len() / 2).map(|i| u8::from_str_radix(&v[2 * i..2 * i + 2], 16).unwrap_or(b'?')).collect();
+                            loader.sources.borrow_mut().insert(k.to_string(), String::from_utf8_lossy(&bytes).to_string());
+                        }
+                    }
+                }
+                let _ = bvh::take_out();
+                let mut ctx = bvh::new_context_with_loader(bvh::Limits::default(), loader.clone());
+                let mut outcomes = Vec::new();
+                for r in &roots {
+                    let m = match loader.get(r, &mut ctx) { Ok(m) => m, Err(e) => { outcomes.push(format!("load-error:{e}")); continue; } };
+                    let p = m.load_link_evaluate(&mut ctx);
+                    let _ = ctx.run_jobs();
+                    outcomes.push(match p.state() {
+                        PromiseState::Fulfilled(_) => "-".to_string(),
+                        PromiseState::Rejected(e) => e.as_object().and_then(|o| o.get(JsString::from("message"), &mut ctx).ok()).and_then(|v| v.as_string().map(|s| s.to_std_string_escaped())).unwrap_or_else(|| "?".into()),
+                        PromiseState::Pending => "pending".to_string(),
+                    });
+                }
+                format!("trace={} outcomes={}", bvh::take_out().join(","), outcomes.join(","))
+            });
+            writeln!(out, "{}", ans.unwrap_or_else(|_| "panic".to_string())).unwrap();
+            continue;
+        }
         if toks.first() != Some(&"run") { continue; }
         let ans = std::panic::catch_unwind(|| {
             let deps: Vec<Vec<usize>> = field(&toks, "deps").split(';').filter(|e| !e.is_empty()).map(|e| {
